@@ -56,6 +56,16 @@ Proof.
            pil_comment_ok (proj2 pil_root_shape) pil_ss pil_zm pil_sl pil_le pil_om pil_se pil_stmt_past pls its tl).
 Qed.
 
+Theorem pil_document_reject_first_evals pls b y :
+  Forall pil_blank_line pls -> blanks pil_ws b -> stmt_start pil_ws y ->
+  (forall full b', blanks pil_ws b' -> evals pil_nodes full pil_stmt true (At (b' ++ y)) PFail) ->
+  let D := concat pls ++ b ++ y in
+  evals pil_nodes D 0 true (At D) PFail.
+Proof.
+  exact (document_reject_first pil_nodes 0 pil_c 1 4 5 6 7 pil_stmt 303 pil_ws false
+           pil_comment_ok (proj2 pil_root_shape) pil_ss pil_zm pil_sl pil_le pil_om pls b y).
+Qed.
+
 (* ---- tabs ---- *)
 Definition no_tab (s : pstr) : Prop := forallb (fun c => negb (N.eqb c 9%N)) s = true.
 Lemma expandtabs_from_no_tab s : no_tab s -> forall col, expandtabs_from col s = s.
@@ -86,6 +96,19 @@ Proof.
   intros Hp Hi Hne Ht D HD.
   destruct (evals_parse_fuel pil_grammar D _ HD (pil_document_evals pls its tl Hp Hi Hne Ht)) as [f0 H].
   exists f0. intros f Hf. unfold parse_pil_fuel. rewrite (H f Hf). reflexivity.
+Qed.
+
+(* a document whose first statement the statement node refuses raises ParseException *)
+Theorem pil_document_reject pls b y :
+  Forall pil_blank_line pls -> blanks pil_ws b -> stmt_start pil_ws y ->
+  (forall full b', blanks pil_ws b' -> evals pil_nodes full pil_stmt true (At (b' ++ y)) PFail) ->
+  let D := concat pls ++ b ++ y in
+  no_tab D ->
+  exists f0, forall f, f0 <= f -> parse_pil_fuel f D = err eParse.
+Proof.
+  intros Hp Hb Hy Hf D HD.
+  destruct (evals_parse_fuel pil_grammar D _ HD (pil_document_reject_first_evals pls b y Hp Hb Hy Hf)) as [f0 H].
+  exists f0. intros f Hle. unfold parse_pil_fuel. rewrite (H f Hle). reflexivity.
 Qed.
 
 (* one statement (a body followed by a statement end that reaches the end of the input) *)
